@@ -813,6 +813,8 @@ def r7_raises(program, rep):
               construct="disconnected condition", node=a)
 
 
+r3_copy.helper_aware = True
+
 def check(program, rep):
     program.module(NER)
     rep.guard("C03-R1", r1_leaves, program, rep)
